@@ -183,14 +183,22 @@ def run_naction(rng, policy, mid, ctx, outcome, n=3, split='mixed'):
     else:
         ok, bad = uids[:n // 2] or None, [(c, i, 0x0110) for c, i in uids[n // 2:]] or None
     ae.script['commit_rq'] = exceptions.EventHandlingError('x') if outcome == 'EHE' else ({'aet': 'REMOTE', 'address': 'h', 'port': 1}, ok, bad)
-    a = S.make_association(ae, policy)
+    # the peer's NEXT request is already waiting on this association: it belongs to the handler loop, not to the service
+    nxt = S.decode_message(S.request_bytes(0x0030, (mid + 1) % 65536, VERIF, has_data=False), b'', ctx)
+    a = S.make_association(ae, policy, [(nxt, ctx)])
     msg = S.decode_message(S.request_bytes(0x0130, mid, COMMIT, COMMIT_INST, extra=[(cmdset.TAG_ACTION_TYPE, cmdset.us(1))]), enc(ds), ctx)
     tr = [{'ev': 'Req', 'svc': 'naction', 'req': {'type': 0x0130, 'ctx': ctx, 'mid': mid, 'cls': COMMIT, 'inst': COMMIT_INST}},
           {'ev': 'Handler', 'status': DOCUMENTED_FAILURE['naction'] if outcome == 'EHE' else 0}]
     sub = S.SubAssociation(ae, None)
-    S.sopclass.StorageCommitment.n_action(a, S.ctx_def(ctx, COMMIT), msg)
-    a.dul.drain()
     extra = {}
+    try:
+        S.sopclass.StorageCommitment.n_action(a, S.ctx_def(ctx, COMMIT), msg)
+    except Exception as exc:      # noqa
+        extra['raised'] = 'n_action raised %s: %s' % (type(exc).__name__, exc)
+    a.dul.drain()
+    if len(a.dul.replies) != 1:
+        extra['foreign-receive'] = 'the service took a message off the REQUESTING association while it was dealing with the report association'
+
     if outcome != 'EHE':
         subs = ae.sub_associations
         if len(subs) != 1 or len(subs[0].sent) != 1:
